@@ -176,7 +176,7 @@ def feature(s):
     if ":" in s:
         if ":60" in s:
             return "time-seconds-60"
-        if re.search(r"Z[+-]", s):
+        if re.search(r"[Zz][+-]", s):
             return "time-Z-then-offset"
         if re.search(r":[0-9]{1,2}(?:\.[0-9]+)?[+-][0-9]", s):
             return "time-offset"
@@ -406,6 +406,9 @@ def check_encoder(enc_name, s, with_loads):
     return bad, t
 
 
+STATS = {"bare": 0, "quoted": 0, "refused": 0}      # per process: how encode_string answered
+
+
 def check_string(s, with_loads, pairs=PAIRS, encoders=tuple(ENCODERS)):
     """-> (evaluations, [(key, what, data)])"""
     n = 0
@@ -422,7 +425,13 @@ def check_string(s, with_loads, pairs=PAIRS, encoders=tuple(ENCODERS)):
             res.append((f"C17:{pair}:{check}:{detail}:{f2}", what, {"string": s, "pair": pair, "check": check}))
     for en in encoders:
         n += 1
-        bad, _ = check_encoder(en, s, with_loads)
+        bad, t = check_encoder(en, s, with_loads)
+        if t == "refused" or t is None:
+            STATS["refused"] += 1
+        elif t == s:
+            STATS["bare"] += 1
+        else:
+            STATS["quoted"] += 1
         for check, detail, what in bad:
             res.append((f"C17:{en}:{check}:{detail}:{ft}", what, {"string": s, "encoder": en, "check": check, "loads": with_loads}))
     return n, res
@@ -434,6 +443,8 @@ def task(arg):
     n = 0
     nl = 0
     best = {}
+    for k in STATS:
+        STATS[k] = 0
     for i, s in enumerate(strings):
         wl = len(s) <= always_loads_len or (loads_every and i % loads_every == 0)
         nl += wl
@@ -443,7 +454,8 @@ def task(arg):
             rank = (len(s), s)
             if key not in best or rank < best[key][0]:
                 best[key] = (rank, what, data)
-    return {"n": n, "strings": len(strings), "loads": nl, "viol": [(k, v[0], v[1], v[2]) for k, v in best.items()]}
+    return {"n": n, "strings": len(strings), "loads": nl, "stats": dict(STATS),
+            "viol": [(k, v[0], v[1], v[2]) for k, v in best.items()]}
 
 
 # --------------------------------------------------------------------------------------------
@@ -461,9 +473,12 @@ def run(pool, s, strings, jobs, loads_every, always_loads_len):
     tasks = [(strings[i::nchunks], loads_every, always_loads_len) for i in range(nchunks)]
     best = {}
     nloads = 0
+    stats = {"bare": 0, "quoted": 0, "refused": 0}
     for r in pool.map(task, tasks, chunksize=1):
         s.evaluations += r["n"]
         nloads += r["loads"]
+        for k in stats:
+            stats[k] += r["stats"][k]
         for key, rank, what, data in r["viol"]:
             rank = tuple(rank)
             if key not in best or rank < best[key][0]:
@@ -471,6 +486,7 @@ def run(pool, s, strings, jobs, loads_every, always_loads_len):
     s.distinct.update(strings)
     for key in sorted(best, key=lambda k: (best[k][0], k)):
         s.violation(key, best[key][1], best[key][2])
+    s.notes.append(f"encode_string over 4 encoders: written bare {stats['bare']}, quoted {stats['quoted']}, refused {stats['refused']}")
     return nloads
 
 
